@@ -501,3 +501,13 @@ def c08_range_input_unpopulated_member(w, v):
     if not blanks:
         return False
     return w.get('cell') in {gw_key(desc, k) for k in wbrun.downstream(desc, blanks)}
+
+
+@matcher('c06_range_operand_reused_later')
+def c06_range_operand_reused_later(w, v):
+    """An area that is an operand of `:` (at any depth below it) and occurs
+    again later in the same formula as an argument of its own: the range
+    operator is then evaluated at run time from the operand values only, so
+    the cells of the bounding rectangle outside the operands are blank."""
+    return v['sig'] == 'pair:leaf-of-range-operator:leaf-last' and \
+        bool(w.get('shared_leaf_is_operand_of_range_operator'))
